@@ -707,8 +707,9 @@ fn make_prediction<F: Float, L: Label>(
 }
 
 /// Finds the most frequent class for a hash map of frequencies. If two
-/// classes have the same weight then the first class found with that
-/// frequency is returned.
+/// classes have the same weight then the smallest class (by `Ord`) with that
+/// frequency is returned, so that the result does not depend on the (random)
+/// iteration order of the hash map.
 fn find_modal_class<L: Label>(class_freq: &HashMap<L, f32>) -> L {
     // TODO: Refactor this with fold_first
 
@@ -716,8 +717,8 @@ fn find_modal_class<L: Label>(class_freq: &HashMap<L, f32>) -> L {
         .iter()
         .fold(None, |acc, (idx, freq)| match acc {
             None => Some((idx, freq)),
-            Some((_best_idx, best_freq)) => {
-                if best_freq > freq {
+            Some((best_idx, best_freq)) => {
+                if best_freq > freq || (best_freq == freq && best_idx < idx) {
                     acc
                 } else {
                     Some((idx, freq))
